@@ -66,6 +66,13 @@ def strategy(tier):
 _SRC = {}
 
 
+def _quiet(f):
+    import warnings
+    with warnings.catch_warnings():
+        warnings.simplefilter("ignore")
+        return f()
+
+
 def check_grouped(res, src, dims, labels, layout, what, sig, attrs=True):
     """layout: list of result dimensions, each a list of source dim names (len 1 = plain) or a new name ('+n').
     Checks dims, member axes, tuple labels and every value."""
@@ -168,7 +175,8 @@ def run_case(case):
                 for insert in [None] + list(range(0, nd - n + 1)):
                     kw = {} if insert is None else {"insert": insert}
                     spellings = [("tuple", lambda: a.flatten(tuple(subset), **kw)), ("list", lambda: a.flatten(list(subset), **kw)),
-                                 ("varargs", lambda: a.flatten(*subset, **kw)), ("positions", lambda: a.flatten(tuple(dims.index(d) for d in subset), **kw))]
+                                 ("varargs", lambda: a.flatten(*subset, **kw)), ("positions", lambda: a.flatten(tuple(dims.index(d) for d in subset), **kw)),
+                                 ("group (deprecated alias)", lambda: _quiet(lambda: a.group(tuple(subset), **kw)))]
                     for sname, f in spellings:
                         what = "flatten[%s](%s, %s) dims=%s labels=%s" % (sname, subset, kw, dims, labels)
                         sig = {"op": "flatten"}
@@ -230,6 +238,8 @@ def run_case(case):
                     res = lib(lambda: a.flatten(tuple(comb), reverse=True, insert=0), what=what, sig={"op": "flatten"})
                     check_grouped(res, src, dims, labels, [rest] + [[d] for d in comb], what, {"op": "flatten"})
                     cl.add("flatten:reverse")
+                    res = lib(lambda: _quiet(lambda: a.group(tuple(comb), reverse=True, insert=0)), what=what + " [group alias]", sig={"op": "flatten"})
+                    check_grouped(res, src, dims, labels, [rest] + [[d] for d in comb], what + " [group alias]", {"op": "flatten"})
                     for pname, pos in (("positions", tuple(dims.index(d) for d in comb)), ("negative positions", tuple(dims.index(d) - nd for d in comb))):
                         what = "flatten(%s %s, reverse=True, insert=0) dims=%s" % (pname, list(pos), dims)
                         res = lib(lambda: a.flatten(pos, reverse=True, insert=0), what=what, sig={"op": "flatten"})
@@ -252,6 +262,8 @@ def run_case(case):
         # no axis given: every grouped axis is expanded
         u = lib(lambda: f.unflatten(), what=what + " [unflatten() of two groups]", sig={"op": "unflatten"})
         check_grouped(u, src, dims, labels, [[g1[0]], [g1[1]], [g2[0]], [g2[1]]], what + " [unflatten() of two groups]", {"op": "unflatten"})
+        u = lib(lambda: _quiet(lambda: f.ungroup(axis=",".join(g2))), what=what + " [ungroup (deprecated alias), axis by name]", sig={"op": "unflatten"})
+        check_grouped(u, src, dims, labels, [g1, [g2[0]], [g2[1]]], what + " [ungroup alias, axis by name]", {"op": "unflatten"})
         u = lib(lambda: f.unflatten(axis=-1), what=what + " [axis=-1]", sig={"op": "unflatten"})
         check_grouped(u, src, dims, labels, [g1, [g2[0]], [g2[1]]], what + " [axis by negative position]", {"op": "unflatten"})
         sub.append((core.digest([spec, "unflatten-axis"]), True))
